@@ -11,7 +11,7 @@ BAD = ('fail', 'error', 'error_setup', 'error_teardown', 'error_both', 'fail_tea
 
 @st.composite
 def cases(draw, procs=False):
-    faults = draw(st.sampled_from([None, None, None, {'setUp': 20}]))
+    faults = draw(st.sampled_from([None, None, None, {'setUp': 20}, {'tearDown': 25}, {'setUp': 12, 'tearDown': 20}]))
     spec = draw(gen.worlds(max_layers=4, min_layers=1 if procs else 0, hooks='layer', faults=faults,
                            nie=40 if procs else 0, kinds=('pass', 'skip_body', 'xfail') + BAD, max_modules=2, depth=1,
                            max_tests=5, weights_good=75, layer_decl=80, explicit_unit=True, max_children=3))
